@@ -805,11 +805,11 @@ class ConfigParser(object):
       return u"{}".format(v)
 
     known_properties = {
-      'atomic_mass' : float, 
+      'atomic_mass' : _finite_float, 
       'atomic_number' : int, 
-      'covalent_radius' : float,
-      'lattice_constant' : float, 
-      'charge' : float,
+      'covalent_radius' : _finite_float,
+      'lattice_constant' : _finite_float, 
+      'charge' : _finite_float,
       'lattice_type' : default}
 
     try:
